@@ -206,9 +206,17 @@ def _expr(n, params, site):
         return str(int(n["value"])), False
     if k == "DeclRefExpr":
         nm = (n.get("referencedDecl") or {}).get("name")
+        if isinstance(params, dict) and nm in params:
+            return params[nm], False
         if nm in params:
             return nm, False
         raise TieBroken(site, "reference to %s is outside the grammar" % nm)
+    if k == "MemberExpr" and isinstance(params, dict):
+        base = _strip(n["inner"][0])
+        key = "%s->%s" % ((base.get("referencedDecl") or {}).get("name"), n.get("name"))
+        if key in params:
+            return params[key], False
+        raise TieBroken(site, "member access %s is outside the grammar" % key)
     if k == "UnaryOperator" and n.get("opcode") == "!":
         t, b = _expr(n["inner"][0], params, site)
         return ("(!%s)" % t) if b else ("(%s == 0)" % t), True
@@ -216,8 +224,8 @@ def _expr(n, params, site):
         op = n.get("opcode")
         (a, ab), (b, bb) = _expr(n["inner"][0], params, site), _expr(n["inner"][1], params, site)
         tob = lambda t, isb: t if isb else "(%s != 0)" % t
-        if op in ("&", "|") and not ab and not bb:
-            return "(%s %s %s)" % (a, {"&": "&&&", "|": "|||"}[op], b), False
+        if op in ("&", "|", "^", ">>", "<<", "+", "-") and not ab and not bb:
+            return "(%s %s %s)" % (a, {"&": "&&&", "|": "|||", "^": "^^^", ">>": ">>>", "<<": "<<<", "+": "+", "-": "-"}[op], b), False
         if op in ("==", "!=") and not ab and not bb:
             return "(%s %s %s)" % (a, op, b), True
         if op in ("&&", "||"):
@@ -302,17 +310,79 @@ def gen_function_visible(bdir):
 
 
 
+def _walk(n):
+    yield n
+    for c in n.get("inner", []) or []:
+        if isinstance(c, dict):
+            yield from _walk(c)
+
+
+def gen_apply_hash(bdir):
+    """the cache slot computation of apply_low: `ix = (<hash>) & cache_mask;` and `static int cache_mask = <init>;`"""
+    site = "guard:apply_low-hash"
+    fn = _ast_of_function(bdir, "src/apply.c", "apply_low")
+    mask_init = None
+    for n in _walk(fn):
+        if n.get("kind") == "VarDecl" and n.get("name") == "cache_mask" and n.get("inner"):
+            mask_init, b = _expr(n["inner"][-1], {}, site)
+            if b:
+                raise TieBroken(site, "cache_mask initialiser is a truth value")
+    if mask_init is None:
+        raise TieBroken(site, "`cache_mask` with an initialiser not found in apply_low")
+    rhs = []
+    for n in _walk(fn):
+        if n.get("kind") == "BinaryOperator" and n.get("opcode") == "=":
+            lhs = _strip(n["inner"][0])
+            if lhs.get("kind") == "DeclRefExpr" and (lhs.get("referencedDecl") or {}).get("name") == "ix":
+                rhs.append(n["inner"][1])
+    if len(rhs) != 1:
+        raise TieBroken(site, "expected exactly one assignment to `ix` in apply_low, found %d" % len(rhs))
+    text, b = _expr(rhs[0], {"progp->id_number": "id", "fun": "ptr", "cache_mask": "cacheMaskGen"}, site)
+    if b:
+        raise TieBroken(site, "hash is a truth value")
+    out = "/-- GENERATED from the clang AST of `apply_low` (src/apply.c): `static int cache_mask = ...` -/\n"
+    out += "def cacheMaskGen : Nat := %s\n" % mask_init
+    out += "/-- GENERATED from the clang AST of `apply_low`: the right-hand side of `ix = ...` (id = progp->id_number, ptr = (intptr_t) fun) -/\n"
+    out += "def slotOfGen (id ptr : Nat) : Nat := %s\n" % text
+    return out
+
+
+def gen_find_masks(bdir):
+    """the two flag tests of find_function on the entry the binary search found"""
+    site = "guard:find_function-flags"
+    fn = _ast_of_function(bdir, "src/apply.c", "find_function")
+    masks = []
+    for n in _walk(fn):
+        if n.get("kind") == "IfStmt":
+            c = _strip(n["inner"][0])
+            if c.get("kind") == "BinaryOperator" and c.get("opcode") == "&":
+                l = _strip(c["inner"][0])
+                if l.get("kind") == "DeclRefExpr" and (l.get("referencedDecl") or {}).get("name") == "flags":
+                    t, b = _expr(c["inner"][1], {}, site)
+                    thenk = n["inner"][1].get("kind")
+                    masks.append((t, thenk))
+    if len(masks) != 2 or masks[0][1] != "CompoundStmt" or masks[1][1] != "BreakStmt":
+        raise TieBroken(site, "find_function no longer has `if (flags & M) { if (flags & B) break; return 0; }` (found %s)" % masks)
+    out = "/-- GENERATED from the clang AST of `find_function`: entries with one of these bits are not a local definition -/\n"
+    out += "def findSkipMaskGen : Nat := %s\n" % masks[0][0]
+    out += "/-- GENERATED: with this bit the search goes on in the inherits (`break`), otherwise `return 0` -/\n"
+    out += "def findBreakMaskGen : Nat := %s\n" % masks[1][0]
+    return out
+
+
 class C07(Prop):
     id = "C07"
     title = "calls reach the right function and respect visibility, whatever came before"
-    lean_modules = ["NV.C07.Props", "NV.C07.Witness", "NV.C07.OracleTests", "NV.C07.LemmasCompress"]
+    lean_modules = ["NV.C07.Props", "NV.C07.Witness", "NV.C07.OracleTests", "NV.C07.LemmasCompress", "NV.C07.Tie"]
     theorems = ["NV.C07.visibility_table", "NV.C07.visibility_any_flags", "NV.C07.visibility_lifted",
                 "NV.C07.driver_origins_never_refused", "NV.C07.bsearch_correct", "NV.C07.find_function_correct",
                 "NV.C07.find_offsets_are_path_sums", "NV.C07.cache_transparent_step", "NV.C07.cache_transparent",
                 "NV.C07.frame_offsets_correct", "NV.C07.call_other_origin_is_call_other", "NV.C07.call_origin_consumed",
                 "NV.C07.built_alias_flags_agree", "NV.C07.built_flags_agree", "NV.C07.built_inherits_in_world", "NV.C07.inherit_flags_rule_is_spec",
                 "NV.C07.find_func_entry_compress", "NV.C07.compressWith_lookup", "NV.C07.fillGo_spec", "NV.C07.inhSearch_spec",
-                "NV.C07.remake_expected"]
+                "NV.C07.remake_expected",
+                "NV.C07.slotOf_formula", "NV.C07.cacheMask_is_size_minus_one", "NV.C07.slotOf_lt", "NV.C07.find_masks_are_source",
+                "NV.C07.name_masks_are_source", "NV.C07.cmp_marker_is_byte_max"]
     witness_theorems = ["NV.C07.Witness.old_cache_not_transparent", "NV.C07.Witness.origin_stored_once_runs_static",
                         "NV.C07.Witness.old_compress_overflow_branch_loses_entries"]
     consts = [("applyCacheBits", "APPLY_CACHE_BITS"),
@@ -325,7 +395,10 @@ class C07(Prop):
               ("originDriver", "ORIGIN_DRIVER"), ("originLocal", "ORIGIN_LOCAL"),
               ("originCallOther", "ORIGIN_CALL_OTHER"), ("originSimulEfun", "ORIGIN_SIMUL_EFUN"),
               ("originCallOut", "ORIGIN_CALL_OUT"), ("originEfun", "ORIGIN_EFUN"),
-              ("originFunctionPointer", "ORIGIN_FUNCTION_POINTER"), ("originFunctional", "ORIGIN_FUNCTIONAL")]
+              ("originFunctionPointer", "ORIGIN_FUNCTION_POINTER"), ("originFunctional", "ORIGIN_FUNCTIONAL"),
+              ("nameMaskC", "NAME_MASK"), ("nameNoCodeC", "NAME_NO_CODE"),
+              ("cmpIndexBytes", "sizeof(((compressed_offset_table_t *)0)->index[0])"),
+              ("fnIndexBytes", "sizeof(function_index_t)")]
     const_headers = ["lib/efuns/options.h", "lpc/program.h", "lpc/include/origin.h"]
     quick_n = 1200
     thorough_n = 12000
@@ -365,7 +438,7 @@ class C07(Prop):
                    "programs loaded from saved binaries (see C17)"]
 
     def gen_extra(self, ctx, bdir):
-        return gen_function_visible(bdir)
+        return gen_function_visible(bdir) + "\n" + gen_apply_hash(bdir) + "\n" + gen_find_masks(bdir)
 
     # ---- implementation side ---------------------------------------------------------------
     def prepare(self, ctx):
